@@ -150,7 +150,7 @@ pub struct Gate {
     pub opened_at: Option<u64>,
     /// (waiter key, waker): one current waker per waiter
     pub wakers: Vec<(u32, Waker)>,
-    pub stale: Vec<Waker>,
+    pub stale: Vec<(u32, Waker)>,
     pub m: Arc<rt::sync::Mutex<bool>>,
     pub cv: Arc<rt::sync::Condvar>,
 }
@@ -263,6 +263,33 @@ pub struct Cover {
     pub late_refs: u64,
     pub select_left_waker: u64,
     pub drops_while_panicking: u64,
+    /// state of the object's queue at the moment each kind of call / event reached it (reach matrix)
+    pub at_desync: [u64; 8],
+    pub at_sync: [u64; 8],
+    pub at_try_sync: [u64; 8],
+    pub at_future_desync: [u64; 8],
+    pub at_after: [u64; 8],
+    pub at_future_sync: [u64; 8],
+    pub at_suspend: [u64; 8],
+    pub at_pipe_in: [u64; 8],
+    pub at_pipe: [u64; 8],
+    pub at_poll: [u64; 8],
+    pub at_sync_wait: [u64; 8],
+    pub at_handle_drop: [u64; 8],
+    pub at_event_wake: [u64; 8],
+    pub at_stale_wake: [u64; 8],
+    pub at_owner_drop: [u64; 8],
+    pub at_resume: [u64; 8],
+    pub at_stream_wake: [u64; 8],
+}
+
+/// Reach matrix: records the state of object `o`'s queue as seen by an event about to act on it.
+pub fn cover_at(field: fn(&mut Cover) -> &mut [u64; 8], o: usize) {
+    let world = w();
+    let st = world.objs.get(o).and_then(|s| s.queue.as_ref()).and_then(|q| q.verif_peek()).map(|p| p.0 as usize);
+    if let Some(st) = st {
+        field(&mut world.cover)[st.min(7)] += 1;
+    }
 }
 
 thread_local! {
@@ -600,7 +627,7 @@ pub fn gate_poll(g: usize, key: u32, cx: &mut std::task::Context<'_>) -> std::ta
     if let Some(pos) = gate.wakers.iter().position(|(k, _)| *k == key) {
         let (_, old) = gate.wakers.remove(pos);
         if gate.stale.len() < 8 {
-            gate.stale.push(old);
+            gate.stale.push((key, old));
         }
     }
     gate.wakers.push((key, waker));
@@ -630,7 +657,10 @@ pub fn gate_open(g: usize) {
     let wakers = std::mem::take(&mut gate.wakers);
     let (m, cv) = (gate.m.clone(), gate.cv.clone());
     let dup = world.prog.faults.dup_wake_permille;
-    for (_, wk) in wakers {
+    for (key, wk) in wakers {
+        if let Some(o) = w().ops.get(key as usize).and_then(|r| r.obj) {
+            cover_at(|c| &mut c.at_event_wake, o);
+        }
         if dup > 0 && rt::kernel::coin(dup) {
             w().cover.dup_wakes += 1;
             wk.wake_by_ref();
@@ -663,7 +693,10 @@ pub fn gate_wake_stale(g: usize) {
         return;
     }
     let wakers = std::mem::take(&mut world.gates[g].stale);
-    for wk in wakers {
+    for (key, wk) in wakers {
+        if let Some(o) = w().ops.get(key as usize).and_then(|r| r.obj) {
+            cover_at(|c| &mut c.at_stale_wake, o);
+        }
         w().cover.stale_wakes += 1;
         ev("stale_wake", g as i64, 0);
         wk.wake();
@@ -747,8 +780,12 @@ pub fn stream_push(s: usize, item: u32) {
     st.items.push_back(item);
     st.pushed.push(item);
     let wk = st.waker.take();
+    let target = st.obj;
     let dup = world.prog.faults.dup_wake_permille;
     if let Some(wk) = wk {
+        if let Some(o) = target {
+            cover_at(|c| &mut c.at_stream_wake, o);
+        }
         if dup > 0 && rt::kernel::coin(dup) {
             w().cover.dup_wakes += 1;
             wk.wake_by_ref();
@@ -766,7 +803,11 @@ pub fn stream_close(s: usize) {
     }
     let st = &mut world.streams[s];
     st.closed = true;
+    let target = st.obj;
     if let Some(wk) = st.waker.take() {
+        if let Some(o) = target {
+            cover_at(|c| &mut c.at_stream_wake, o);
+        }
         wk.wake();
     }
 }
